@@ -5,7 +5,8 @@
    CReserveApprox the same with arbitrary rates and instants: float64 rounding allowed for, the
               delays must agree within tol nanoseconds (InfDuration exactly); tokens not compared
    CProvision Handler.Provision on a configuration: error?, the two burst sizes afterwards, totalLimiter != nil
-   CRead      Handler.Handle + throttledConn.Read over a scripted inner connection holding [avail]
+   CRead      Handler.Handle on a layer4.Connection that still holds [pre] prefetched bytes, then
+              throttledConn.Read over a scripted inner connection holding [avail]
               bytes and handing over at most [chunk] per Read: observed (len of the slice the inner
               Read was given, n returned) for every Read(p) of the given lengths *)
 From Coq Require Import List ZArith NArith Bool String.
@@ -22,7 +23,7 @@ Inductive c17case :=
 | CReserve (lp lq burst : Z) (inf : bool) (reqs : list (Z * Z)) (obs : list (Z * Z))
 | CReserveApprox (lp lq burst tol : Z) (reqs : list (Z * Z)) (obs : list (Z * Z))
 | CProvision (cfg : tconfig) (ok : bool) (rb tb : Z) (hast : bool)
-| CRead (cfg : tconfig) (avail chunk : Z) (lens errs : list Z) (obs ret : list (Z * Z)) (consT consL : Z).
+| CRead (cfg : tconfig) (pre avail chunk : Z) (lens errs : list Z) (obs ret : list (Z * Z)) (consT consL : Z).
 
 Fixpoint res_seq (L : limiter) (st : lstate) (reqs : list (Z * Z)) : list (Z * Z) :=
   match reqs with
@@ -50,6 +51,14 @@ Fixpoint zz_near (tol : Z) (a b : list (Z * Z)) : bool :=
 Definition rets_of (tr : list ev) : list (Z * Z) :=
   flat_map (fun e => match e with EPull _ _ _ bs er => [(Z.of_nat (List.length bs), er)] | _ => [] end) tr.
 
+(* what every Read returned: buffer reads (n, nil), the others what the throttled conn returned *)
+Fixpoint merge_rets (plan : list (Z + Z)) (rs : list (Z * Z)) : list (Z * Z) :=
+  match plan with
+  | [] => []
+  | inl n :: p => (n, 0) :: merge_rets p rs
+  | inr _ :: p => match rs with r :: rs' => r :: merge_rets p rs' | [] => [] end
+  end.
+
 Definition consumed (L : limiter) (st : lstate) : Z := (lburst L * unit L - tok st) / unit L.
 
 Definition pulls_of (tr : list ev) : list (Z * Z) :=
@@ -71,15 +80,17 @@ Definition check (c : c17case) : bool :=
              && (match htotal h with Some L => lburst L | None => 0 end =? tb)
              && Bool.eqb (match htotal h with Some _ => true | None => false end) hast
       end
-  | CRead cfg avail chunk lens errs obs ret consT consL =>
+  | CRead cfg pre avail chunk lens0 errs obs ret consT consL =>
       match provision cfg with
       | None => false
       | Some h =>
           let ss := [{| sstart := 0; sjit := 0; scancel := false; sdata := repeat x00 (Z.to_nat avail) |}] in
+          let plan := cx_plan pre lens0 in
+          let lens := flat_map (fun x => match x with inr l => [l] | inl _ => [] end) plan in
           let ops := map (fun le => {| oc := 0; olen := fst le; odelay := 0; oj2 := 0; oj3 := 0; oavail := chunk; oerr := snd le |}) (combine lens errs) in
           let '(w, tr) := run h ss ops in
           zz_eqb (pulls_of tr) obs && (List.length lens =? List.length errs)%nat
-          && zz_eqb (rets_of tr) ret
+          && zz_eqb (merge_rets plan (rets_of tr)) ret
           && ((consT =? -1) || (match htotal h with Some L => consumed L (wtotal w) | None => 0 end =? consT))
           && ((consL =? -1) || (match hlocal h with Some L => consumed L (wlocal w 0%nat) | None => 0 end =? consL))
       end
